@@ -22,6 +22,7 @@ from vlib.val import line
 from vlib.compare import diff, Err
 
 ID = 'C07'
+PYOBJECT_METHODS = ['lower_periodic', 'make_periodic', 'make_periodic_c', 'split']   # splineobject.py methods re-translated and proved equal to the hand model each run
 # theorems of this property stated for the object evaluator `Obj.evaluate` (bridge through C02)
 EXTRA_THEOREMS = [('Splipy.Properties.Bridge', 'Splipy/Properties/Bridge.lean', 'Bridge_C07_')]
 RTOL = 1e-9
